@@ -92,7 +92,12 @@ extern "C" void harness()
 	vf_assume(! sameValue(va, vd) || va.dig == vd.dig);
 	vf_assume(! sameValue(vb, vd) || vb.dig == vd.dig);
 	vf_assume(! sameValue(vc, vd) || vc.dig == vd.dig);
+#if MAPK == 2
+	// hashed map: libstdc++ starts with 13 buckets, so every insertion/lookup of a symbolic digest forks 13 ways; two registered ids here
+	d->appendListener(Id(va), Cb(1)); d->appendListener(Id(vb), Cb(2));
+#else
 	d->appendListener(Id(va), Cb(1)); d->appendListener(Id(vb), Cb(2)); d->appendListener(Id(vc), Cb(3));
+#endif
 	uint32_t arg = vf_nondet_u32();
 	g_tr.clear();
 	d->dispatch(Id(vd), arg);
@@ -101,6 +106,9 @@ extern "C" void harness()
 	bool e1 = sameValue(va, vd), e2 = sameValue(vb, vd), e3 = sameValue(vc, vd);
 #else
 	bool e1 = va.dig == vd.dig, e2 = vb.dig == vd.dig, e3 = vc.dig == vd.dig;
+#endif
+#if MAPK == 2
+	e3 = false;
 #endif
 	int k = 0;
 	if(e1) { vf_assert(k < g_tr.n && g_tr.e[k].id == 1 && g_tr.e[k].a == arg, 172); k++; }
